@@ -399,7 +399,7 @@ func (m c06) Run(c *fw.Ctx) {
 		c.Exhaustive(fmt.Sprintf("Join of all leaf triples over L=%d", L))
 	}
 	r := c.Rng
-	N := c.Pick(5000, 300000)
+	N := c.Pick(20000, 300000)
 	for it := 0; it < N; it++ {
 		c.NextOwn()
 		L := 1 + r.Intn(40)
